@@ -88,7 +88,9 @@ let status_case (line : string) : string =
            let tb = bytes_of_hex text and ob = bytes_of_hex old in
            let (k, m1) = addrxlat2kdump (s32 s) in
            let (a, m2) = kdump2addrxlat (u32 s) in
-           let up = if m1 then ErrSpec.chain_step ob tb else ob in
+           (* the driver sets errno = ENOMEM before the upward call *)
+           let enomem = bytes_of_hex "43616e6e6f7420616c6c6f63617465206d656d6f7279" in
+           let up = if m1 then ErrSpec.chain_step (sys_innermost k ob enomem) tb else ob in
            let down = if m2 then ErrSpec.chain_step ob tb else ob in
            let hx l = if l = [] then "-" else hex_of_bytes l in
            Printf.sprintf "%s %s 0 %s %s 0" (hexu (u32 k)) (hx up) (hex_of_z a) (hx down)
@@ -142,7 +144,15 @@ let statusspec_case (line : string) : string =
                 let tb = bytes_of_hex text and ob = bytes_of_hex old in
                 let want = if z_of_hex st = BinNums.Z0 then ob else ErrSpec.chain_step ob tb in
                 let hx l = if l = [] then "-" else hex_of_bytes l in
-                if up <> hx want then "addrxlat2kdump: the message arrives altered: got " ^ up ^ " expected " ^ hx want
+                (* fixes/108: ADDRXLAT_ERR_NOMEM (4) arrives as KDUMP_ERR_SYSTEM, and the library's convention
+                   for a system error on an empty chain is to put strerror(errno) innermost; the driver sets
+                   errno = ENOMEM before the call *)
+                let want_up =
+                  if z_of_hex st = BinNums.Z0 then ob
+                  else ErrSpec.chain_step
+                         (sys_innermost (fst (addrxlat2kdump (s32 (z_of_hex st)))) ob
+                            (bytes_of_hex "43616e6e6f7420616c6c6f63617465206d656d6f7279")) tb in
+                if up <> hx want_up then "addrxlat2kdump: the message arrives altered: got " ^ up ^ " expected " ^ hx want_up
                 else if down <> hx want then "kdump2addrxlat: the message arrives altered: got " ^ down ^ " expected " ^ hx want
                 else if xl <> "0" || kl <> "0" then "the sending context keeps its error string"
                 else "ok"
